@@ -25,6 +25,8 @@ var alphabet = []string{
 	// appended later (indices of saved cases stay valid): a cut that reaches call/1, \\+ and findall/3
 	// through a variable bound before the goal is converted - local to that call, but it does cut there
 	"(C = !, call((n(X), C, true)))", "(C = !, \\+ (n(X), C, X > 1))", "(C = !, findall(Z, (n(Z), C, true), [X]))",
+	// a disjunction standing directly in the goal position of a cut-opaque construct, a cut in its first disjunct
+	"catch((n(X), ! ; X = 7), _, true)", "call((n(X), ! ; X = 7))", "findall(Z, (n(Z), ! ; Z = 7), [X])",
 }
 
 var base = []string{"n(1)", "n(2)", "n(3)", "m(a)", "m(b)", "r(X) :- n(X), X > 1, !", "r(9)"}
@@ -177,7 +179,7 @@ func init() {
 func TestProp(t *testing.T) {
 	r := h.Start(t, "C03")
 	defer r.Finish(t)
-	r.Rule("(a) every control skeleton up to the size bound: programs t/2 of one clause, two clauses, or one clause with a top-level disjunctive body, optionally a trailing fact, bodies = all sequences up to length L over a 19-goal alphabet (nondeterministic sources, tests, !, fail, call(!), call((n(X),!)), \\+, once, if-then-else, findall and catch with an inner cut, a callee that cuts, a cut reaching call/1, \\+ and findall/3 through a variable bound beforehand), each under 6 queries (plain, after a nondeterministic goal, before one, under once, under \\+, as left disjunct); quick: first body L<=2, second L<=1; thorough: L<=3 single, L<=2 x L<=2 pairs; plus every non-right-nested bracketing ((a,b),c), (((a,b),c),d), ((a,b),(c,d)) ... of 3..4 (thorough 5) goals from {n(X), m(Y), X\\=1, !, true} holding a cut, with a trailing fact or a second clause. (b) rapid-sampled larger programs with cuts as direct conjuncts of clause bodies / top-level disjuncts and inside call/N, \\+, once, findall/bagof/setof, catch, with if-then-else, recursion templates with cuts (first solution, cut in a recursive clause, repeat...!, double cut, cut in the last clause). Oracle: the reference machine's ISO cut semantics; compared: answer sequence and termination. Non-trivial: the reference executed a cut that removed at least one choice point, or a cut-opaque construct in a run that backtracked and answered. Distinct by program and query.",
+	r.Rule("(a) every control skeleton up to the size bound: programs t/2 of one clause, two clauses, or one clause with a top-level disjunctive body, optionally a trailing fact, bodies = all sequences up to length L over a 22-goal alphabet (nondeterministic sources, tests, !, fail, call(!), call((n(X),!)), \\+, once, if-then-else, findall and catch with an inner cut, a callee that cuts, a cut reaching call/1, \\+ and findall/3 through a variable bound beforehand, a disjunction with a cut in its first disjunct directly under catch/3, call/1, findall/3), each under 6 queries (plain, after a nondeterministic goal, before one, under once, under \\+, as left disjunct); quick: first body L<=2, second L<=1; thorough: L<=3 single, L<=2 x L<=2 pairs; plus every non-right-nested bracketing ((a,b),c), (((a,b),c),d), ((a,b),(c,d)) ... of 3..4 (thorough 5) goals from {n(X), m(Y), X\\=1, !, true} holding a cut, with a trailing fact or a second clause. (b) rapid-sampled larger programs with cuts as direct conjuncts of clause bodies / top-level disjuncts and inside call/N, \\+, once, findall/bagof/setof, catch, with if-then-else, recursion templates with cuts (first solution, cut in a recursive clause, repeat...!, double cut, cut in the last clause). Oracle: the reference machine's ISO cut semantics; compared: answer sequence and termination. Non-trivial: the reference executed a cut that removed at least one choice point, or a cut-opaque construct in a run that backtracked and answered. Distinct by program and query.",
 		"the reference machine's cut-barrier model (DESIGN.md 2.3.1)",
 		"only the cut placements for which the property claims clause-level cut are generated: a bare ! is never placed inside a branch of -> or a nested ;")
 	if r.Shard() == 0 {
